@@ -307,6 +307,7 @@ def shrink(case):
 def streams(tier):
     th = tier == "thorough"
     ss = [Stream("serial_conducted", gen_serial(3000 if th else 400), check_serial, shrink, timeout=30)]
-    ss.append(Stream("backends", gen_backend(150 if th else 24, ["thread", "process", "loky"] if th else ["thread", "thread", "process"]),
-                     check_backend, shrink, timeout=120))
+    # process / loky backends start helper processes (manager, pools): thorough tier only
+    ss.append(Stream("backends", gen_backend(150 if th else 24, ["thread", "process", "loky"] if th else ["thread"]),
+                     check_backend, shrink, timeout=60))
     return ss
